@@ -164,6 +164,9 @@ def check_base_read(c, f):
     c.check(norm(h.type) == 'OSError', f, h, 'the handler catches OSError only', witness=norm(h.type), kind='ast', tag='handler-type')
     eio = [n for n in ast.walk(h) if isinstance(n, ast.If) and 'errno.EIO' in norm(n.test)]
     c.need(len(eio) == 1, 'EIO test not found')
+    hn = h.name or 'err'
+    c.check(norm(eio[0].test) in ('%s.args[0] == errno.EIO' % hn, '%s.errno == errno.EIO' % hn, 'errno.EIO == %s.args[0]' % hn), f, eio[0],
+            'the handler recognises exactly errno EIO (the pty\'s way of saying end of file)', witness=norm(eio[0].test), kind='alg', tag='eio-test')
     body = eio[0].body
     ok = any(isinstance(s, ast.Assign) and stmt_assigns_attr(s, 'flag_eof') is not None and is_const(s.value, True) for s in body) \
         and isinstance(body[-1], ast.Raise) and raised_class(body[-1], f) == 'EOF'
@@ -337,6 +340,7 @@ MUTANTS = [
     ('no-repoll-dead', 'pty_spawn', "            if select(0):\n                return super(spawn, self).read_nonblocking(size)\n            self.flag_eof = True\n            raise EOF('End Of File (EOF). Braindead platform.')", "            self.flag_eof = True\n            raise EOF('End Of File (EOF). Braindead platform.')", 'D2'),
     ('no-repoll-slow', 'pty_spawn', "            if select(0):\n                return super(spawn, self).read_nonblocking(size)\n            self.flag_eof = True\n            raise EOF('End of File (EOF). Very slow platform.')", "            self.flag_eof = True\n            raise EOF('End of File (EOF). Very slow platform.')", 'D2'),
     ('eio-swallow-others', 'spawnbase', "                raise EOF('End Of File (EOF). Exception style platform.')\n            raise\n", "                raise EOF('End Of File (EOF). Exception style platform.')\n            s = b''\n", 'D3'),
+    ('eio-inverted', 'spawnbase', "            if err.args[0] == errno.EIO:\n                # Linux-style EOF\n                self.flag_eof = True", "            if err.args[0] != errno.EIO:\n                # Linux-style EOF\n                self.flag_eof = True", 'D3'),
     ('sentinel-first', 'popen_spawn', "            if not buf:\n                # This indicates we have reached EOF\n                self._read_queue.put(None)\n                return\n\n            self._read_queue.put(buf)", "            if not buf:\n                # This indicates we have reached EOF\n                self._read_queue.put(None)\n                continue\n\n            self._read_queue.put(buf)", 'D4'),
     ('chunk-dropped-small', 'popen_spawn', "            self._read_queue.put(buf)\n", "            if len(buf) > 1:\n                self._read_queue.put(buf)\n", 'D4'),
     ('consumer-drops-item', 'popen_spawn', "                buf += self._decoder.decode(incoming, final=False)", "                if len(buf) + len(incoming) <= size:\n                    buf += self._decoder.decode(incoming, final=False)", 'D4'),
